@@ -155,11 +155,11 @@ package meta
 
 // ---- compilation entry points (C09): ASSUMED shape; the parser verdict is named by parses(pattern, flags) ----
 //@ trusted func Compile
-//@   ensures result1 == nil ==> result0 != nil && parses(pattern, 212) && !result0.longest && result0.pikevm != nil && fresh(result0)
+//@   ensures result1 == nil ==> result0 != nil && parses(pattern, 212) && !result0.longest && result0.pikevm != nil && fresh(result0) && fresh(result0.pikevm) && (result0.boundedBacktracker != nil ==> fresh(result0.boundedBacktracker))
 //@   ensures !parses(pattern, 212) ==> result1 != nil
 //@ trusted func CompileRegexp
 //@   requires re != nil
-//@   ensures result1 == nil ==> result0 != nil && !result0.longest && result0.pikevm != nil && fresh(result0)
+//@   ensures result1 == nil ==> result0 != nil && !result0.longest && result0.pikevm != nil && fresh(result0) && fresh(result0.pikevm) && (result0.boundedBacktracker != nil ==> fresh(result0.boundedBacktracker))
 // regexp/syntax bounds the height of every tree it returns by 1000; the default configuration must let the NFA
 // compiler descend that far, otherwise Compile rejects patterns regexp accepts
 //@ func DefaultConfig
@@ -177,3 +177,103 @@ package meta
 //@ trusted func (*Engine).NumCaptures
 //@   requires e != nil
 //@   ensures result >= 1
+
+// ---- C19: anchored-literal fast path (^prefix.*class+suffix$) ----------------------------------------------------
+// alSplit(k): the last k bytes before the suffix are the class run, what is left of the middle is the wildcard.
+//@ opaque spec func alSplit(in []byte, pl int, sl int, wmin int, cmin int, hasT bool, tab [256]bool, notNL bool, k int) bool = cmin <= k && (!hasT ==> k == 0) && pl + wmin <= len(in) - sl - k && (forall j :: len(in) - sl - k <= j && j < len(in) - sl ==> tab[in[j]]) && (notNL ==> (forall j :: pl <= j && j < len(in) - sl - k ==> in[j] != 10))
+//@ spec func alInfoOK(info *AnchoredLiteralInfo) bool = info != nil && 0 <= info.WildcardMin && info.WildcardMin <= 1 && 0 <= info.CharClassMin && info.CharClassMin <= 1 && (info.CharClassMin == 1 <==> info.CharClassTable != nil) && info.MinLength == len(info.Prefix) + info.WildcardMin + info.CharClassMin + len(info.Suffix)
+//@ spec func alEnds(in []byte, info *AnchoredLiteralInfo) bool = len(in) >= len(info.Prefix) + len(info.Suffix) && (forall i :: 0 <= i && i < len(info.Prefix) ==> in[i] == info.Prefix[i]) && (forall i :: 0 <= i && i < len(info.Suffix) ==> in[len(in) - len(info.Suffix) + i] == info.Suffix[i])
+//@ spec func alK(in []byte, info *AnchoredLiteralInfo, k int) bool = alSplit(in, len(info.Prefix), len(info.Suffix), info.WildcardMin, info.CharClassMin, info.CharClassTable != nil, *info.CharClassTable, info.WildcardNotNL, k)
+//@ func MatchAnchoredLiteral
+//@   props C19
+//@   requires alInfoOK(info)
+//@   ensures result ==> alEnds(input, info) && (exists k :: 0 <= k && alK(input, info, k))
+//@   ensures forall k :: 0 <= k && alEnds(input, info) && alK(input, info, k) ==> result
+//@   loop 1: invariant -1 <= rangeindex && rangeindex <= rangelen && rangelen == len(info.Prefix) && (forall q :: 0 <= q && q <= rangeindex ==> input[q] == info.Prefix[q])
+//@   loop 2: invariant -1 <= rangeindex && rangeindex <= rangelen && rangelen == len(info.Suffix) && (forall q :: 0 <= q && q <= rangeindex ==> input[suffixStart + q] == info.Suffix[q])
+//@   loop 3: invariant charClassStart - 1 <= i && i < charClassEnd && found == charClassEnd - 1 - i && (forall q :: i < q && q < charClassEnd ==> info.CharClassTable[input[q]])
+//@   loop 1: decreases rangelen - rangeindex
+//@   loop 2: decreases rangelen - rangeindex
+//@   loop 3: decreases i + 1
+//@   opt dead_returns=2
+//@   loop 2: exit info.CharClassTable == nil && !info.WildcardNotNL ==> alK(input, info, 0)
+//@   loop 3: exit !info.WildcardNotNL && found >= info.CharClassMin ==> alK(input, info, found)
+//@   after call 1: lastcall < 0 ==> alK(input, info, 0)
+//@   after call 2: lastcall < 0 ==> alK(input, info, found)
+
+// UTF-8 encoding as arithmetic (the definition, RFC 3629): width and j-th byte of the encoding of r
+//@ spec func u8w(r int) int = ite(r < 128, 1, ite(r < 2048, 2, ite(r < 65536, 3, 4)))
+//@ spec func u8b(r int, j int) int = ite(r < 128, r, ite(r < 2048, ite(j == 0, 192 + r / 64, 128 + r % 64), ite(r < 65536, ite(j == 0, 224 + r / 4096, ite(j == 1, 128 + (r / 64) % 64, 128 + r % 64)), ite(j == 0, 240 + r / 262144, ite(j == 1, 128 + (r / 4096) % 64, ite(j == 2, 128 + (r / 64) % 64, 128 + r % 64))))))
+//@ func encodeRuneToBytes
+//@   props C19
+//@   requires 0 <= r && r <= 0x10FFFF && len(buf) >= 4
+//@   ensures result == u8w(r)
+//@   ensures forall j :: 0 <= j && j < result ==> buf[j] == u8b(r, j)
+//@   modifies buf[*]
+
+//@ spec func runesOK(re *syntax.Regexp) bool = re != nil && len(re.Rune) <= 1000000 && (forall k :: 0 <= k && k < len(re.Rune) ==> 0 <= re.Rune[k] && re.Rune[k] <= 0x10FFFF)
+//@ spec func isLit(re *syntax.Regexp) bool = re != nil && re.Op == 3 && (re.Flags & 1) == 0
+//@ func extractLiteral
+//@   props C19
+//@   requires runesOK(re)
+//@   ensures result != nil <==> isLit(re)
+//@   ensures result != nil ==> fresh(result)
+//@   ensures result != nil && (forall k :: 0 <= k && k < len(re.Rune) ==> re.Rune[k] < 128) ==> len(result) == len(re.Rune) && (forall k :: 0 <= k && k < len(re.Rune) ==> result[k] == re.Rune[k])
+//@   ensures result != nil && len(re.Rune) == 1 ==> len(result) == u8w(re.Rune[0]) && (forall j :: 0 <= j && j < len(result) ==> result[j] == u8b(re.Rune[0], j))
+//@   ensures result != nil ==> len(result) >= len(re.Rune) && len(result) <= 4 * len(re.Rune)
+//@   loop 1: invariant -1 <= rangeindex && rangeindex < rangelen && rangelen == len(re.Rune) && fresh(result) && result != nil
+//@   loop 1: invariant rangeindex + 1 <= len(result) && len(result) <= 4 * (rangeindex + 1)
+//@   loop 1: invariant (forall k :: 0 <= k && k <= rangeindex ==> re.Rune[k] < 128) ==> len(result) == rangeindex + 1 && (forall k :: 0 <= k && k <= rangeindex ==> result[k] == re.Rune[k])
+//@   loop 1: invariant rangeindex == 0 ==> len(result) == u8w(re.Rune[0]) && (forall j :: 0 <= j && j < len(result) ==> result[j] == u8b(re.Rune[0], j))
+//@   loop 1: decreases rangelen - rangeindex
+
+// byteClass: every range is ASCII or covers all of non-ASCII, so membership of a rune is decided by its bytes one by one
+//@ spec func byteClass(c *syntax.Regexp) bool = len(c.Rune) % 2 == 0 && (forall j :: 0 <= j && j + 1 < len(c.Rune) && j % 2 == 0 ==> (c.Rune[j+1] < 128 || (c.Rune[j] <= 128 && c.Rune[j+1] == 0x10FFFF)))
+//@ func isByteClass
+//@   props C19
+//@   requires runesOK(re)
+//@   ensures result <==> byteClass(re)
+//@   loop 1: invariant 0 <= i && i % 2 == 0 && i <= len(re.Rune) + 1 && len(re.Rune) % 2 == 0
+//@   loop 1: invariant forall j :: 0 <= j && j + 1 < len(re.Rune) && j < i && j % 2 == 0 ==> (re.Rune[j+1] < 128 || (re.Rune[j] <= 128 && re.Rune[j+1] == 0x10FFFF))
+//@   loop 1: decreases len(re.Rune) - i
+
+// tableOf: the table holds exactly the bytes b (as code points 0..255) that lie in one of the class ranges
+//@ spec func tableOf(t [256]bool, c *syntax.Regexp) bool = forall b :: 0 <= b && b <= 255 ==> (t[b] <==> (exists j :: 0 <= j && j + 1 < len(c.Rune) && j % 2 == 0 && c.Rune[j] <= b && b <= c.Rune[j+1]))
+//@ func buildCharClassTable
+//@   props C19
+//@   requires runesOK(re) && len(re.Rune) % 2 == 0
+//@   ensures re.Op != 4 ==> result == nil
+//@   ensures re.Op == 4 ==> result != nil && fresh(result) && tableOf(*result, re)
+//@   loop 1: invariant 0 <= i && i % 2 == 0 && i <= len(runes) && sameslice(runes, re.Rune)
+//@   loop 1: invariant forall b :: 0 <= b && b <= 255 ==> (table[b] <==> (exists j :: 0 <= j && j + 1 < len(runes) && j < i && j % 2 == 0 && runes[j] <= b && b <= runes[j+1]))
+//@   loop 1: decreases len(runes) - i
+//@   loop 2: invariant lo <= c && (c <= hi + 1 || c == lo) && 0 <= lo && lo <= 255 && hi <= 255 && lo == runes[i] && (hi == runes[i+1] || (hi == 255 && runes[i+1] > 255)) && 0 <= i && i % 2 == 0 && i + 1 < len(runes) && sameslice(runes, re.Rune)
+//@   loop 2: invariant forall b :: 0 <= b && b <= 255 ==> (table[b] <==> ((exists j :: 0 <= j && j + 1 < len(runes) && j < i && j % 2 == 0 && runes[j] <= b && b <= runes[j+1]) || (lo <= b && b < c)))
+//@   loop 2: decreases hi + 1 - c
+
+// The fragment DetectAnchoredLiteral accepts, node by node (Op numbers: 3 literal, 4 class, 5 any-not-NL, 6 any, 7 ^(?m),
+// 8 $(?m), 9 \A, 10 \z, 14 star, 15 plus, 18 concat; flag 1 = FoldCase):
+//   concat( anchor, literal*, wildcard, [byte-class plus], literal, anchor )
+// and what the result records of it. alMatch over the recorded fields is the reference semantics of exactly that
+// fragment when the anchors are \A and \z (the caller checks that): see DESIGN.md, C19.
+//@ spec func isWild(r *syntax.Regexp) bool = (r.Op == 14 || r.Op == 15) && len(r.Sub) == 1 && (r.Sub[0].Op == 5 || r.Sub[0].Op == 6)
+//@ spec func isBytePlus(r *syntax.Regexp) bool = r.Op == 15 && len(r.Sub) == 1 && r.Sub[0].Op == 4 && byteClass(r.Sub[0])
+//@ spec func litBytes(out []byte, r *syntax.Regexp) bool = ((forall k :: 0 <= k && k < len(r.Rune) ==> r.Rune[k] < 128) ==> len(out) == len(r.Rune) && (forall k :: 0 <= k && k < len(r.Rune) ==> out[k] == r.Rune[k])) && (len(r.Rune) == 1 ==> len(out) == u8w(r.Rune[0]) && (forall j :: 0 <= j && j < len(out) ==> out[j] == u8b(r.Rune[0], j)))
+//@ spec func astOK(re *syntax.Regexp) bool = re != nil && len(re.Sub) <= 1000000 && (forall k :: 0 <= k && k < len(re.Sub) ==> runesOK(re.Sub[k]) && len(re.Sub[k].Sub) <= 1000000 && (forall m :: 0 <= m && m < len(re.Sub[k].Sub) ==> runesOK(re.Sub[k].Sub[m])))
+//@ spec func alShape(re *syntax.Regexp, w int, info *AnchoredLiteralInfo) bool = (forall i :: 1 <= i && i < w ==> isLit(re.Sub[i])) && info.WildcardMin == ite(re.Sub[w].Op == 15, 1, 0) && (info.WildcardNotNL <==> re.Sub[w].Sub[0].Op == 5) && ((w == len(re.Sub) - 3 && info.CharClassTable == nil) || (w == len(re.Sub) - 4 && isBytePlus(re.Sub[w+1]) && info.CharClassTable != nil && tableOf(*info.CharClassTable, re.Sub[w+1].Sub[0]))) && (w == 1 ==> len(info.Prefix) == 0) && (w == 2 ==> litBytes(info.Prefix, re.Sub[1]))
+//@ func DetectAnchoredLiteral
+//@   props C19
+//@   requires astOK(re)
+//@   ensures result != nil ==> fresh(result) && alInfoOK(result)
+//@   ensures result != nil ==> re.Op == 18 && len(re.Sub) >= 4 && (re.Sub[0].Op == 9 || re.Sub[0].Op == 7) && (re.Sub[len(re.Sub)-1].Op == 10 || re.Sub[len(re.Sub)-1].Op == 8) && isLit(re.Sub[len(re.Sub)-2]) && litBytes(result.Suffix, re.Sub[len(re.Sub)-2])
+//@   ensures result != nil ==> (exists w :: 1 <= w && w < len(re.Sub) - 2 && isWild(re.Sub[w]))
+//@   ensures result != nil ==> (forall w :: 1 <= w && w < len(re.Sub) - 2 && isWild(re.Sub[w]) ==> alShape(re, w, result))
+//@   loop 1: invariant 1 <= i && i <= suffixIdx && suffixIdx == len(subs) - 2 && sameslice(subs, re.Sub) && suffix != nil && fresh(suffix) && isLit(subs[suffixIdx]) && litBytes(suffix, subs[suffixIdx])
+//@   loop 1: invariant (prefix == nil || (fresh(prefix) && base(prefix) != base(suffix))) && (charClassTable == nil || fresh(charClassTable))
+//@   loop 1: invariant wildcardIdx == -1 || (1 <= wildcardIdx && wildcardIdx < i && isWild(subs[wildcardIdx]))
+//@   loop 1: invariant wildcardIdx == -1 ==> (forall k :: 1 <= k && k < i ==> isLit(subs[k])) && charClassTable == nil && charClassMin == 0
+//@   loop 1: invariant wildcardIdx == -1 ==> (i == 1 ==> len(prefix) == 0) && (i == 2 ==> litBytes(prefix, subs[1]))
+//@   loop 1: invariant wildcardIdx != -1 ==> (forall k :: 1 <= k && k < wildcardIdx ==> isLit(subs[k])) && wildcardMin == ite(subs[wildcardIdx].Op == 15, 1, 0) && (wildcardNotNL <==> subs[wildcardIdx].Sub[0].Op == 5)
+//@   loop 1: invariant wildcardIdx != -1 ==> (wildcardIdx == 1 ==> len(prefix) == 0) && (wildcardIdx == 2 ==> litBytes(prefix, subs[1]))
+//@   loop 1: invariant wildcardIdx != -1 ==> ((i == wildcardIdx + 1 && charClassTable == nil && charClassMin == 0) || (i == wildcardIdx + 2 && i == suffixIdx && isBytePlus(subs[wildcardIdx+1]) && charClassTable != nil && charClassMin == 1 && tableOf(*charClassTable, subs[wildcardIdx+1].Sub[0])))
+//@   loop 1: decreases suffixIdx - i
